@@ -1,5 +1,5 @@
-(* C17, per-object-stream state of fix-qdf (File/FixQdf.v): the five fields writeOstream() clears - ostream,
-   ostream_offsets, ostream_discarded, ostream_idx and ostream_extends - are empty whenever the line machine is
+(* C17, per-object-stream state of fix-qdf (File/FixQdf.v): the six fields writeOstream() clears - ostream,
+   ostream_offsets, ostream_discarded, ostream_idx, ostream_extends and ostream_kept - are empty whenever the line machine is
    outside an object stream, for EVERY input; hence the dictionary fix-qdf regenerates for an object stream carries
    exactly the /Extends of that stream's own old dictionary text, whatever object streams came before it. *)
 From QV Require Import Base.Bytes File.StrictSyntax File.ReadStrict File.WriterArith File.C02Proofs File.FixQdf File.QdfLayout File.C17Witness File.C17Examples File.C17Proofs.
@@ -14,7 +14,7 @@ Definition fq17_in_ostream (st : fq_state) : bool :=
   end.
 
 Definition fq17_os_clear (s : fqs) : Prop :=
-  q_ostream s = [] /\ q_ooffs s = [] /\ q_odisc s = [] /\ q_oidx s = 0 /\ q_oext s = [].
+  q_ostream s = [] /\ q_ooffs s = [] /\ q_odisc s = [] /\ q_oidx s = 0 /\ q_oext s = [] /\ q_okept s = [].
 
 Definition fq17_os_inv (s : fqs) : Prop := fq17_in_ostream (q_st s) = false -> fq17_os_clear s.
 
@@ -30,7 +30,7 @@ Ltac fq17_case :=
       end; destruct x eqn:?
   end.
 
-Ltac fq17_proj := cbn [q_st q_ostream q_ooffs q_odisc q_oidx q_oext fq_set_st fq_set_pos fq_set_offset fq_set_obj
+Ltac fq17_proj := cbn [q_st q_ostream q_ooffs q_odisc q_oidx q_oext q_okept fq_set_okept fq_set_st fq_set_pos fq_set_offset fq_set_obj
   fq_set_stream fq_set_xr fq_set_os fq_set_out fq_emit fq17_in_ostream] in *.
 
 Ltac fq17_done :=
@@ -60,11 +60,11 @@ Qed.
 
 (* THE PER-STREAM FIELDS ARE RESET.  For EVERY input (no layout premise at all): whenever the line machine is not
    between the "/Type /ObjStm" line and the "endstream" line of an object stream, the saved lines, the member
-   offsets, the discarded lines, the member index and the captured /Extends reference are all empty - nothing that
+   offsets, the discarded lines, the member index, the captured /Extends reference and the kept dictionary lines are all empty - nothing that
    was collected for one object stream is still there when the next one begins. *)
 Lemma fixqdf_ostream_state_reset_lemma : forall lines s,
   fq_run fq_init lines = inl s -> fq17_in_ostream (q_st s) = false ->
-  q_ostream s = [] /\ q_ooffs s = [] /\ q_odisc s = [] /\ q_oidx s = 0 /\ q_oext s = [].
+  q_ostream s = [] /\ q_ooffs s = [] /\ q_odisc s = [] /\ q_oidx s = 0 /\ q_oext s = [] /\ q_okept s = [].
 Proof. intros lines s Hrun Hst. exact (fq17_run_inv lines fq_init s fq17_os_inv_init Hrun Hst). Qed.
 
 (* ---------- what the old dictionary text of ONE object stream says about /Extends ----------
@@ -133,8 +133,8 @@ Proof. intros dict. rewrite fq17_ext_of_own. destruct (fq17_own_extends dict); r
    /Extends, edited or not) that leave the machine inside an object.  If an object stream follows - "/Type /ObjStm"
    line, old dictionary text, "stream", old pair lines, members, "endstream" - then the dictionary written for it is
    /Length /N /First, then "  /Extends <ref>" exactly when this stream's OWN old dictionary text has a line matching
-   re_extends (with the reference of the last such line), then ">>"; nothing of `pre` enters it, and the captured
-   reference is gone afterwards. *)
+   re_extends (with the reference of the last such line), then the other lines of that text that fix-qdf does not
+   write itself, then ">>"; nothing of `pre` enters it, and the captured reference and lines are gone afterwards. *)
 Lemma fixqdf_extends_local_lemma : forall pre s tyline dict junk m ms,
   fq_run fq_init pre = inl s -> q_st s = Fq_in_obj ->
   fq_eqb tyline fqk_stream_nl = false -> fq_eqb tyline fqk_endobj_nl = false -> fq_is_type_line tyline fqk_type_objstm = true ->
@@ -151,21 +151,21 @@ Lemma fixqdf_extends_local_lemma : forall pre s tyline dict junk m ms,
       fqk_length_sp ++ fq_dec (fq_len body + fq_len pairs) ++ fqk_nl ++
       fqk_N_sp ++ fq_dec (Z.of_nat (length (m :: ms))) ++ fqk_nl ++
       fqk_first_sp ++ fq_dec (fq_len (m_hdr m) + fq_len pairs) ++ fqk_nl ++
-      (match ext with [] => [] | e => fqk_extends_key ++ e ++ fqk_nl end) ++ fqk_dict_end in
+      (match ext with [] => [] | e => fqk_extends_key ++ e ++ fqk_nl end) ++ concat (fq_kept_of dict) ++ fqk_dict_end in
   exists s',
     fq_run fq_init (pre ++ [tyline] ++ dict ++ [fqk_stream_nl] ++ junk ++ members ++ [fqk_endstream_nl]) = inl s' /\
     q_st s' = Fq_in_obj /\
     fq_flatten (q_out s') = fq_flatten (q_out s) ++ tyline ++ new_dict ++ fqk_stream_nl ++ pairs ++ body ++ fqk_endstream_nl /\
-    q_oext s' = [].
+    q_oext s' = [] /\ q_okept s' = [].
 Proof.
   intros pre s tyline dict junk m ms Hpre Hst Ht1 Ht2 Ht3 Hdict Hjunk Hok Hmax members body pos pairs ext new_dict.
   assert (Hin : fq17_in_ostream (q_st s) = false) by (rewrite Hst; reflexivity).
-  destruct (fixqdf_ostream_state_reset_lemma pre s Hpre Hin) as (Ho1 & Ho2 & Ho3 & Ho4 & Ho5).
-  pose proof (fixqdf_object_stream_lemma s tyline dict junk m ms Hst Ho1 Ho2 Ho3 Ho4 Ho5 Ht1 Ht2 Ht3 Hdict Hjunk Hok Hmax) as H.
+  destruct (fixqdf_ostream_state_reset_lemma pre s Hpre Hin) as (Ho1 & Ho2 & Ho3 & Ho4 & Ho5 & Ho6).
+  pose proof (fixqdf_object_stream_lemma s tyline dict junk m ms Hst Ho1 Ho2 Ho3 Ho4 Ho5 Ho6 Ht1 Ht2 Ht3 Hdict Hjunk Hok Hmax) as H.
   cbv zeta in H. rewrite fq17_ext_of_nil in H.
-  destruct H as [s' [Hrun [Hst' [Hout [_ [_ [_ [_ [_ [_ [_ Hext]]]]]]]]]]].
+  destruct H as [s' [Hrun [Hst' [Hout [_ [_ [_ [_ [_ [_ [_ [Hext Hkept]]]]]]]]]]]].
   exists s'. rewrite fq_run_app, Hpre.
-  split; [exact Hrun|]. split; [exact Hst'|]. split; [exact Hout|exact Hext].
+  split; [exact Hrun|]. split; [exact Hst'|]. split; [exact Hout|]. split; [exact Hext|exact Hkept].
 Qed.
 
 (* ---------- the line the writer prints, and the line fix-qdf prints back ---------- *)
@@ -261,21 +261,96 @@ Proof.
   repeat (split; [first [reflexivity | (vm_compute; reflexivity) | (repeat constructor; reflexivity)]|]). exact I.
 Qed.
 
-(* C17-F5 (known finding): a key line added by hand to an object-stream dictionary BEHIND its /Type /ObjStm line keeps
-   every layout rule, fix-qdf exits 0, and the line is in no line of the output; the same line put BEFORE the /Type
-   line is copied through.  ("whose document is exactly the edited one" is false for this edit.) *)
+(* ---------- C17-F5 (repaired): the other lines of an object-stream dictionary come back ---------- *)
+Lemma fq17_drop_lead_spec : forall l, exists lead, l = lead ++ fq_drop_lead l /\ forallb fq_is_lead lead = true.
+Proof.
+  induction l as [|c t [lead [Hl Hf]]].
+  - exists []. split; reflexivity.
+  - cbn [fq_drop_lead]. destruct (fq_is_lead c) eqn:E.
+    + exists (c :: lead). split; [cbn [app]; rewrite <- Hl; reflexivity | cbn [forallb]; rewrite E, Hf; reflexivity].
+    + exists []. split; reflexivity.
+Qed.
+
+Lemma fq17_drop_lead_app : forall lead c r, forallb fq_is_lead lead = true -> fq_is_lead c = false -> fq_drop_lead (lead ++ c :: r) = c :: r.
+Proof.
+  induction lead as [|x lead IH]; intros c r Hf Hc.
+  - cbn [app fq_drop_lead]. rewrite Hc. reflexivity.
+  - cbn [forallb] in Hf. apply andb_prop in Hf. destruct Hf as [Hx Hf]. cbn [app fq_drop_lead]. rewrite Hx. apply IH; assumption.
+Qed.
+
+Lemma fq17_strip_spec : forall p s r, fq_strip p s = Some r -> s = p ++ r.
+Proof.
+  induction p as [|x p IH]; intros s r H.
+  - cbn [fq_strip] in H. injection H as <-. reflexivity.
+  - cbn [fq_strip] in H. destruct s as [|y s]; [discriminate H|].
+    destruct (x =? y)%N eqn:E; [|discriminate H]. apply N.eqb_eq in E. subst y. cbn [app]. f_equal. apply IH; exact H.
+Qed.
+
+Definition fq17_regen_keys : list (list N) := [fqk_slash_length_sp; fqk_slash_N_sp; fqk_slash_first_sp].
+
+(* is_regenerated_ostream_line, characterised: exactly ">>\n" and the lines <spaces/tabs> "/Length " | "/N " | "/First " <anything> *)
+Lemma fq17_is_regenerated_spec : forall l,
+  fq_is_regenerated l = true <->
+  (l = fqk_dict_end \/ exists lead key rest, l = lead ++ key ++ rest /\ forallb fq_is_lead lead = true /\ In key fq17_regen_keys).
+Proof.
+  intros l. split.
+  - unfold fq_is_regenerated. destruct (fq_eqb l fqk_dict_end) eqn:E; [intros _; left; apply fq_eqb_eq; exact E|].
+    intros H. right. destruct (fq17_drop_lead_spec l) as [lead [Hl Hf]].
+    destruct (fq_drop_lead l) as [|c t] eqn:Ed; [discriminate H|].
+    unfold fq_starts in H.
+    destruct (fq_strip fqk_slash_length_sp (c :: t)) as [r|] eqn:E1.
+    { exists lead, fqk_slash_length_sp, r. rewrite <- (fq17_strip_spec _ _ _ E1). split; [exact Hl|]. split; [exact Hf|]. left; reflexivity. }
+    destruct (fq_strip fqk_slash_N_sp (c :: t)) as [r|] eqn:E2.
+    { exists lead, fqk_slash_N_sp, r. rewrite <- (fq17_strip_spec _ _ _ E2). split; [exact Hl|]. split; [exact Hf|]. right; left; reflexivity. }
+    destruct (fq_strip fqk_slash_first_sp (c :: t)) as [r|] eqn:E3; [|discriminate H].
+    exists lead, fqk_slash_first_sp, r. rewrite <- (fq17_strip_spec _ _ _ E3). split; [exact Hl|]. split; [exact Hf|]. right; right; left; reflexivity.
+  - intros [->|[lead [key [rest [-> [Hf Hk]]]]]]; [reflexivity|].
+    unfold fq_is_regenerated. destruct (fq_eqb (lead ++ key ++ rest) fqk_dict_end); [reflexivity|].
+    assert (Hd : exists c k, key = c :: k /\ fq_is_lead c = false).
+    { destruct Hk as [<-|[<-|[<-|[]]]]; eexists; eexists; (split; [reflexivity|reflexivity]). }
+    destruct Hd as [c [k [Hkey Hc]]]. rewrite Hkey. cbn [app]. rewrite (fq17_drop_lead_app lead c (k ++ rest) Hf Hc).
+    change (c :: k ++ rest) with ((c :: k) ++ rest). rewrite <- Hkey. unfold fq_starts.
+    destruct Hk as [<-|[<-|[<-|[]]]]; rewrite ?fq17_strip_app; rewrite ?Bool.orb_true_r; reflexivity.
+Qed.
+
+(* THE OTHER KEYS OF AN OBJECT-STREAM DICTIONARY ARE KEPT (former finding C17-F5, repaired).  The lines that
+   fixqdf_extends_local / fixqdf_object_stream put between the /Extends line and ">>" of the regenerated dictionary,
+   `fq_kept_of dict`, are exactly the lines of the old dictionary text, in their order, that are neither an /Extends
+   line (re_extends) nor a line fix-qdf writes itself (fq17_is_regenerated_spec: ">>", /Length, /N, /First); a text
+   that consists of such lines only comes back whole. *)
+Lemma fixqdf_objstm_dict_keys_kept_lemma :
+  (forall dict l, In l (fq_kept_of dict) <-> In l dict /\ fq_match_extends l = None /\ fq_is_regenerated l = false) /\
+  (forall a l b, fq_match_extends l = None -> fq_is_regenerated l = false ->
+     fq_kept_of (a ++ l :: b) = fq_kept_of a ++ l :: fq_kept_of b) /\
+  (forall dict, Forall (fun l => fq_match_extends l = None /\ fq_is_regenerated l = false) dict -> fq_kept_of dict = dict) /\
+  (forall l, fq_is_regenerated l = true <->
+     (l = fqk_dict_end \/ exists lead key rest, l = lead ++ key ++ rest /\ forallb fq_is_lead lead = true /\ In key fq17_regen_keys)).
+Proof.
+  split; [|split; [|split; [|exact fq17_is_regenerated_spec]]].
+  - intros dict l. unfold fq_kept_of. rewrite filter_In. unfold fq_keeps. split.
+    + intros [Hin Hk]. split; [exact Hin|]. destruct (fq_match_extends l); [discriminate Hk|].
+      split; [reflexivity|]. destruct (fq_is_regenerated l); [discriminate Hk|reflexivity].
+    + intros [Hin [-> ->]]. split; [exact Hin|reflexivity].
+  - intros a l b Hm Hr. unfold fq_kept_of. rewrite filter_app. cbn [filter]. unfold fq_keeps at 2. rewrite Hm, Hr. reflexivity.
+  - induction dict as [|l t IH]; intros H; [reflexivity|]. inversion H as [|? ? [Hm Hr] Ht]; subst.
+    unfold fq_kept_of in *. cbn [filter]. unfold fq_keeps at 1. rewrite Hm, Hr. cbn [negb]. rewrite (IH Ht). reflexivity.
+Qed.
+
+(* regression for C17-F5, pinned on the former witness: the key line added by hand BEHIND the /Type /ObjStm line of an
+   object-stream dictionary (and the same line BEFORE it) is a line of what fix-qdf writes; exit status 0.  Before the
+   repair the first file came back without the line (this was fixqdf_objstm_hand_key_refuted). *)
 Definition c17x_key_behind : list (list N) := c17x_os c17_l_obj1 [c17x_l_mykey] c17_l_pair c17_l_member.
 Definition c17x_key_before : list (list N) :=
   [c17_l_obj1; c17_l_open; c17x_l_mykey; c17_l_type; c17x_l_len; c17_l_close; fqk_stream_nl; c17_l_pair; c17_l_member;
    c17_l_open; c17_l_key; c17_l_close; fqk_endstream_nl; fqk_endobj_nl].
 Definition c17x_has_line (l : list N) (r : fq_result) : bool := existsb (fq_eqb l) (fq_split_lines (fq_output r)).
 
-Lemma fixqdf_objstm_hand_key_refuted_lemma :
-  exists key f f',
-    fq_match_extends key = None /\ existsb (fq_eqb key) f = true /\ existsb (fq_eqb key) f' = true /\
-    fq_exit_status (fixqdf_lines f) = 0 /\ c17x_has_line key (fixqdf_lines f) = false /\
-    fq_exit_status (fixqdf_lines f') = 0 /\ c17x_has_line key (fixqdf_lines f') = true.
+Lemma fixqdf_objstm_hand_key_regression_lemma :
+  fq_match_extends c17x_l_mykey = None /\ fq_is_regenerated c17x_l_mykey = false /\
+  existsb (fq_eqb c17x_l_mykey) c17x_key_behind = true /\ existsb (fq_eqb c17x_l_mykey) c17x_key_before = true /\
+  fq_exit_status (fixqdf_lines c17x_key_behind) = 0 /\ c17x_has_line c17x_l_mykey (fixqdf_lines c17x_key_behind) = true /\
+  fq_exit_status (fixqdf_lines c17x_key_before) = 0 /\ c17x_has_line c17x_l_mykey (fixqdf_lines c17x_key_before) = true /\
+  fq_kept_of [c17x_l_len; c17x_l_mykey; c17x_l_ext3; c17_l_close] = [c17x_l_mykey].
 Proof.
-  exists c17x_l_mykey, c17x_key_behind, c17x_key_before.
   repeat (split; [vm_compute; reflexivity|]). vm_compute; reflexivity.
 Qed.
